@@ -169,6 +169,10 @@ def main():
     out.append("(* %s *)" % ", ".join("%s in %s" % (n, f) for n, f in sorted(set(stats))))
     out.append("Definition n_links_access_thread_safe : access := %s." % safe)
     out.append("Definition n_links_access_default : access := %s." % plain)
+    inits = sorted(set(re.findall(r"\bn_links_\s*\(\s*(-?\d+)\s*\)", strip(open(os.path.join(REPO, "include/adept/Storage.h")).read()))))
+    if len(inits) != 1:
+        die("Storage constructors initialise n_links_ with %s" % (inits or "nothing recognisable"))
+    out.append("Definition initial_links : BinNums.Z := (%s)%%Z." % inits[0])
     out.append("Definition add_link_steps : list mstep := %s." % add_steps)
     out.append("Definition remove_link_steps : list mstep := %s." % rem_steps)
     sys.stdout.write("\n".join(out) + "\n")
